@@ -19,6 +19,7 @@ TRUSTED = TRUSTED_COMMON + [
     "query_nameserver, candidate_nameservers, resolve_hostname_to_ip (proved separately in unit family), get_record, Metrics::*: stand-ins without postconditions beyond frames",
     "Vec<T>::clone for Vec<ResourceRecord>: same sequence (shim)",
     "R39: `opt.and_then(|res| f(.., &res, ..))` written as the equivalent match",
+    "axiom_names_wf: every DomainName value is well-formed (the type invariant C16 establishes at every constructor); used only to meet candidate_nameservers' precondition at its call site",
     "axiom_rr_vec_len / axiom_dn_vec_len: Vec::len() <= isize::MAX (Rust allocation limit)",
 ]
 
@@ -58,11 +59,6 @@ fn validate_nameserver_response(question: &Question, response: &Message, current
             r is Some && r->Some_0 is Delegation ==> r->Some_0->delegation.name.labels@.len() > current_match_count,
 { unimplemented!() }
 #[verifier::external_body]
-fn candidate_nameservers(context: &mut RecursiveContext<'_>, question: &DomainName) -> (r: Option<Nameservers>)
-    ensures final(context).question_stack@ == old(context).question_stack@, same_env(old(context), final(context)),
-            r is Some ==> is_suffix(r->Some_0.name.labels@, question.labels@),
-{ unimplemented!() }
-#[verifier::external_body]
 fn resolve_hostname_to_ip<'a>(context: &mut RecursiveContext<'a>, resolve_locally: bool, hostname: DomainName) -> (r: Option<IpAddr>)
     ensures final(context).question_stack@ == old(context).question_stack@, same_env(old(context), final(context)),
 { unimplemented!() }
@@ -70,12 +66,19 @@ fn resolve_hostname_to_ip<'a>(context: &mut RecursiveContext<'a>, resolve_locall
 fn get_record<'a>(rrs: &'a [ResourceRecord], target: &DomainName, rtype: RecordType) -> (r: Option<&'a ResourceRecord>)
     ensures r is Some ==> r->Some_0.name == *target, // family: get_record (assumed there too)
 { unimplemented!() }
+// R40: `slice.into()` (From<&[T]> for Vec<T>: clones the elements)
+#[verifier::external_body]
+fn shim_labels_to_vec(s: &[Label]) -> (r: Vec<Label>) ensures r@ == s@ { s.into() }
 #[verifier::external_body]
 fn shim_sockaddr(ip: IpAddr, port: u16) -> (r: SocketAddr) { (ip, port).into() }
 #[verifier::external_body]
 fn shim_clone_rrs(v: &Vec<ResourceRecord>) -> (r: Vec<ResourceRecord>) ensures r@ == v@ { v.clone() }
 #[verifier::external_type_specification]
 pub struct ExIpAddr(std::net::IpAddr);
+// the type invariant of DomainName (C16: established by every constructor, proved in units names and wire_decode); no code in this
+// unit builds a DomainName other than through DomainName::from_labels
+pub broadcast axiom fn axiom_names_wf(n: DomainName)
+    ensures #[trigger] n.wf();
 pub broadcast axiom fn axiom_dn_vec_len(v: Vec<DomainName>)
     ensures #[trigger] v@.len() <= 0x7fff_ffff_ffff_ffff;
 // the candidate loop's measure: referrals get strictly closer to the question name, then fast candidates, then slow ones
@@ -112,6 +115,24 @@ SPECS = {
         "entry": L.BU + " broadcast use group_chain, lemma_chain_concat_b, lemma_merged_nil_b, lemma_nil_concat_b, axiom_rr_vec_len; assert(cacheable(response_rrs(nameserver_response)));"},
 }
 
+CANDIDATES = {
+    "props": ["C06", "C10"],
+    "rewrites": [("R40", r"DomainName::from_labels\(labels\.into\(\)\)", "DomainName::from_labels(shim_labels_to_vec(labels))")],
+    "contract": """    requires old(context).wf(), question.wf(),
+    ensures final(context).question_stack@ == old(context).question_stack@, same_env(old(context), final(context)),
+        r is Some ==> is_suffix(r->Some_0.name.labels@, question.labels@), // [C06:candidates_are_nameservers_of_an_ancestor_of_the_question_name]
+        r is Some ==> r->Some_0.hostnames@.len() > 0, // [C06:candidate_set_is_never_empty]""",
+    "entry": L.BU,
+    "loops": {"0": {"kw": "for", "iter_name": "it__", "spec": """        invariant context.question_stack@ == old(context).question_stack@, same_env(old(context), &*context), context.wf(), question.wf(),""",
+                     "entry": L.BU + " let ghost i__ = i as int; proof { lemma_labels_sum_lower(question.labels@); }"},
+              "1": {"kw": "for", "iter_name": "jt__", "spec": """        invariant context.question_stack@ == old(context).question_stack@, same_env(old(context), &*context), context.wf(),""",
+                     "entry": L.BU}},
+    "anchors": [{"after": "if let Some(name) = DomainName::from_labels(labels.into()) {", "proof": """proof {
+    assert(labels@ == question.labels@.subrange(i__, question.labels@.len() as int));
+    assert(is_suffix(name.labels@, question.labels@));
+}"""}],
+}
+
 RRN = {
     "props": ["C01", "C06", "C10"],
     "header_rewrites": [("R32", r"\basync fn\b", "fn")],
@@ -137,7 +158,7 @@ RRN = {
             r == Ok::<ResolvedRecord, ResolutionError>(ResolvedRecord::NonAuthoritative { rrs: zr(old(context), *question)->Some_0.1->rrs, soa_rr: None }), // [C01:recursive_local_records_returned_exactly]
         question.qtype != QueryType::Wildcard && r is Ok ==> chain_ok(resolved_rrs(r->Ok_0), question.name), // [C10:recursive_chain_in_order_from_the_question_name]
     decreases ctx_limit(old(context)) - old(context).question_stack@.len(), 0int,""",
-    "entry": L.BU + " broadcast use group_chain, lemma_chain_concat_b, lemma_merged_nil_b, lemma_nil_concat_b, axiom_rr_vec_len, axiom_dn_vec_len;",
+    "entry": L.BU + " broadcast use group_chain, lemma_chain_concat_b, lemma_merged_nil_b, lemma_nil_concat_b, axiom_rr_vec_len, axiom_dn_vec_len, axiom_names_wf;",
     "loops": {"0": {"kw": "while", "spec": """        invariant
             context.question_stack@ == old(context).question_stack@.push(*question), same_env(old(context), &*context),
             old(context).question_stack@.len() < ctx_limit(old(context)), !old(context).question_stack@.contains(*question),
@@ -215,6 +236,10 @@ pub struct ExSocketAddr(std::net::SocketAddr);""")
     rrn = dict(RRN)
     rrn["rewrites"] = [r if r[0] != "R39" else ("R39", _r39) for r in RRN["rewrites"]]
     specs["resolve_recursive_notimeout"] = rrn
+    specs["candidate_nameservers"] = dict(CANDIDATES)
+    specs.update(as_assumed(NAME_SPECS, ["DomainName::from_labels"]))
+    G.impl(T, "DomainName", ["from_labels"], "DomainName::", specs)
+    G.top_fn(R, "candidate_nameservers", specs)
     G.top_fn(R, "resolve_recursive_notimeout", specs)
     G.top_fn(R, "resolve_with_nameserver_response", specs)
     G.top_fn(R, "resolve_combined_recursive", specs)
@@ -222,6 +247,8 @@ pub struct ExSocketAddr(std::net::SocketAddr);""")
 
 
 CANARIES = [
+    {"name": "candidates_looked_up_for_a_prefix_of_the_name", "file": REC, "old": "        let labels = &question.labels[i..];\n        if let Some(name) = DomainName::from_labels(labels.into()) {\n            let ns_q", "new": "        let labels = &question.labels[..question.labels.len() - i];\n        if let Some(name) = DomainName::from_labels(labels.into()) {\n            let ns_q"},
+    {"name": "empty_candidate_set_returned", "file": REC, "old": "            if !hostnames.is_empty() {\n                return Some(Nameservers {", "new": "            if true {\n                return Some(Nameservers {"},
     {"name": "validator_told_depth_zero", "file": REC, "old": ".and_then(|res| validate_nameserver_response(question, &res, match_count))", "new": ".and_then(|res| validate_nameserver_response(question, &res, 0))"},
     {"name": "referral_does_not_update_the_depth", "file": REC, "old": "                            match_count = delegation.match_count();\n", "new": ""},
     {"name": "unvalidated_records_cached", "file": REC, "old": "            tracing::trace!(\"got recursive answer\");\n            context.cache.insert_all(&rrs);", "new": "            tracing::trace!(\"got recursive answer\");\n            context.cache.insert_all(&combined_rrs);"},
